@@ -2,11 +2,12 @@
 (problog/kbest.py, problog/tasks/explain.py)."""
 import re
 
-from pbt.core.api import Failure, Outcome, SubCheck
+from pbt.core.api import Failure, Outcome, SubCheck, case_hash
 from pbt.core import plrun
 from pbt.gen import programs as gp
 from pbt.ref import semantics as sem
 from pbt.ref import c20_worlds as cw
+from pbt.ref import c20_locate
 
 PROPERTY_ID = "C23"
 LEVEL = "exploration"
@@ -308,7 +309,11 @@ def check_explain(case):
     if not consistent:
         return Outcome(inconclusive="aux-dag-mismatch", features=sorted(feats))
     lay = cw.Layout(ref, prog)
-    per_atom, _by_name, dref, unmapped = cw.map_atoms(atoms, lay)
+    try:
+        stmt_map = c20_locate.statement_map(src)
+    except Exception:  # noqa
+        stmt_map = None
+    per_atom, _by_name, dref, unmapped = cw.map_atoms(atoms, lay, stmt_map)
     target_of = dict((atoms[k]["index"], per_atom[k]) for k in range(len(atoms)))
     parsed, bad = parse_explanation(lines)
     if bad:
@@ -401,8 +406,20 @@ def check_explain(case):
     return done(None)
 
 
+def _keep(prog):
+    """Generator bias (deterministic in the program): programs that meet the non-trivial rule are all kept, of the
+    others (deterministic queries, single proofs, oversize) one in four.  Every maxsatz call costs ~0.4 s CPU."""
+    try:
+        ref = sem.evaluate(prog, max_choices=MAXC, max_worlds=MAXW, want_masks=True)
+    except sem.TooLarge:
+        ref = None
+    if ref is not None and not ref.undefined_any and nontrivial(ref):
+        return True
+    return int(case_hash(prog), 16) % 4 == 0
+
+
 def _strategy():
-    return gp.programs(allow_evidence=False).map(lambda p: {"prog": p})
+    return gp.programs(allow_evidence=False).filter(_keep).map(lambda p: {"prog": p})
 
 
 def render(case):
@@ -417,8 +434,8 @@ KNOWN_CLASSES = {
 }
 
 SUBCHECKS = [
-    SubCheck("kbest", check_kbest, strategy=_strategy, budget={"quick": 200, "thorough": 4000},
+    SubCheck("kbest", check_kbest, strategy=_strategy, budget={"quick": 120, "thorough": 4000},
              timeout={"quick": 20, "thorough": 60}, render=render),
-    SubCheck("explain", check_explain, strategy=_strategy, budget={"quick": 200, "thorough": 4000},
+    SubCheck("explain", check_explain, strategy=_strategy, budget={"quick": 120, "thorough": 4000},
              timeout={"quick": 20, "thorough": 60}, render=render),
 ]
